@@ -66,6 +66,33 @@ fn one_tree(t: &Rose, rng: &mut Rng, rep: &mut Report, batch: &mut Batch, exact:
         rep.count("start_rejected");
         return;
     }
+    verify(&mut st, &mut case, rng, rep, exact, true);
+    // the matrix must also be right on a tree that was queried before and then edited (per-node caches)
+    if rng.chance(1, 2) {
+        let op = match rng.below(4) {
+            0 => "ar.rescale\t2".to_string(),
+            1 => "ar.rescale\t3".to_string(),
+            _ => crate::c03::random_op(rng, &st),
+        };
+        // stream B trees are not loaded into the arena model: their steps are not compared
+        let a = case.step(&mut st, &op, if exact { Cmp::Class } else { Cmp::Ignore });
+        if !exact {
+            if let Some(last) = case.steps.last_mut() {
+                last.0.model_cmd = "nop".into();
+            }
+        }
+        // the documented reset after a change (distance_matrix_recursive reads the leaf index)
+        case.step(&mut st, "real.reset_cache", Cmp::Ignore);
+        if class_of(&a) != "panic" {
+            rep.count("recomputed_after_edit");
+            verify(&mut st, &mut case, rng, rep, exact, false);
+        }
+    }
+    batch.push(case);
+}
+
+fn verify(st: &mut RealState, case: &mut Case, rng: &mut Rng, rep: &mut Report, exact: bool, count: bool) {
+    let start = case.script();
     let slots = slots_of(&st.tree);
     let Some(r) = live_roots(&slots).first().and_then(|x| rose_of(&slots, *x)) else { return };
     let names = r.leaf_names();
@@ -73,9 +100,11 @@ fn one_tree(t: &Rose, rng: &mut Rng, rep: &mut Report, batch: &mut Batch, exact:
     let mut all_len = true;
     let mut no_len = true;
     r.for_each(&mut |x, root| if !root { if x.len.is_none() { all_len = false } else { no_len = false } });
-    rep.case(&start, uniq && names.len() >= 3 && r.max_arity() >= 2);
-    rep.count(&format!("lengths:{}", if all_len { "all" } else if no_len { "none" } else { "mixed" }));
-    rep.count(&format!("leaves:{}", names.len() / 20 * 20));
+    if count {
+        rep.case(&start, uniq && names.len() >= 3 && r.max_arity() >= 2);
+        rep.count(&format!("lengths:{}", if all_len { "all" } else if no_len { "none" } else { "mixed" }));
+        rep.count(&format!("leaves:{}", names.len() / 20 * 20));
+    }
     // ---- both algorithms on the real crate ----
     let (fast, fast_m) = real_dm(&st.tree, false);
     let (rec, rec_m) = real_dm(&st.tree, true);
@@ -91,8 +120,7 @@ fn one_tree(t: &Rose, rng: &mut Rng, rep: &mut Report, batch: &mut Batch, exact:
     if fast == "panic" || rec == "panic" {
         rep.oracle("no-panic", if fast == "panic" { "distance_matrix" } else { "distance_matrix_recursive" }, &ctx, "panic");
     }
-    if !uniq {
-        batch.push(case);
+    if !uniq || live_roots(&slots).len() != 1 {
         return;
     }
     // ---- oracle: two-sided comparison with an independent path walk and with pairwise queries ----
@@ -165,7 +193,6 @@ fn one_tree(t: &Rose, rng: &mut Rng, rep: &mut Report, batch: &mut Batch, exact:
     } else if rec_m.is_some() {
         rep.oracle("missing-length", "recursive-accepted", &ctx, &rec);
     }
-    batch.push(case);
 }
 
 pub fn run(thorough: bool, seed: u64, driver: &str, rep: &mut Report) {
